@@ -19,45 +19,11 @@
 # define REF_INLINE 0
 #endif
 
-/* ---- reference decoder (specification) ----
- * result: >= 0 length of the message in out[], -1 incomplete, -2 malformed */
-#define OUTMAX (2 * NB + 2)
-static int ref_decode(const uint8_t *b, size_t n, uint8_t *out, size_t *used)
-{
-	size_t i = 0, o = 0; unsigned code, data, j;
-	if (i >= n) return -1;
-	code = b[i++];
-	if (!code) return -2;                       /* leading / double delimiter */
-	for (;;) {
-		data = (REF_ZPE && code >= 0xe0) ? code - 0xe0 : code - 1;
-		for (j = 0; j < data; j++) {
-			uint8_t v;
-			if (i >= n) return -1;
-			v = b[i++];
-			if (!v) {
-#if REF_INLINE
-				out[o++] = (uint8_t) code; *used = i; return (int) o;   /* COBS/R: the code byte was the last data byte */
-#else
-				return -2;                       /* zero inside a block */
-#endif
-			}
-			out[o++] = v;
-		}
-		{
-			unsigned next;
-			if (i >= n) return -1;
-			next = b[i++];
-			if (REF_ZPE && code >= 0xe0) { out[o++] = 0; out[o++] = 0; }
-			else if (code < REF_MAXLEN && next) { out[o++] = 0; }
-			if (!next) { *used = i; return (int) o; }
-			code = next;
-		}
-	}
-}
+#include "ref_decode.h"
 
 void harness(void)
 {
-	uint8_t in_bytes[SLACK + NB], store[SLACK + NB], ref_out[OUTMAX]; IN(size_t, in_n); IN(size_t, in_k);
+	uint8_t in_bytes[SLACK + NB], store[SLACK + NB], ref_out[OUTMAX]; IN(size_t, in_n); IN(size_t, in_k); V_FILL(in_bytes);
 	MPT_STRUCT(decode_state) dec = MPT_DECODE_INIT; struct iovec src; size_t i, used = 0; int d, ref; uint8_t keep = 0;
 	V_REQ(in_n <= NB);
 	for (i = 0; i < SLACK + NB; i++) store[i] = in_bytes[i];
